@@ -184,6 +184,13 @@ func c04Run(c hCase) Verdict {
 	}
 	m := newMonitor(c)
 	hasMsg := false
+	if k := closedByShutdown(c, ls); k >= 0 {
+		// judged up to there; when the server ends the connection is its own
+		// business, so the pipelined run has nothing to be compared with
+		ls.steps = ls.steps[:k]
+		c.Discipline = ""
+		v.Classes = append(v.Classes, "connection_ended_by_the_shutdown")
+	}
 	for i, s := range ls.steps {
 		if s.PErr != nil {
 			return failfTag(c04SyntaxTag(s), "step %d (%s, line %s): reply is not a valid RFC 5321 reply: %v", i, s.Cmd, q(firstSent(s)), s.PErr)
